@@ -163,7 +163,10 @@ def match_bytes_unit(res):
                     ok = z3.And([flat[i] == marker[i] for i in range(len(marker))]) if len(flat) >= len(marker) else z3.BoolVal(False)
                     okv = v[0].t if isinstance(v[0], SBool) else z3.BoolVal(bool(v[0]))
                     cnt = num_term(v[1])[0]
-                    return z3.And(okv == ok, z3.Implies(ok, cnt == nlines))
+                    # the marker consists of the .byte lines needed for its documented bytes: the count handed back (used to skip
+                    # the marker) must not swallow further .byte lines, which belong to the marked code
+                    needed = next((m for m in range(1, nlines + 1) if sum(layout[:m]) >= len(marker)), nlines)
+                    return z3.And(okv == ok, z3.Implies(ok, cnt == needed))
 
                 res.add_paths(paths, post, kind=f"m{len(marker)}/{''.join(map(str, layout))}/{tail}", label="Pb")
     return res
